@@ -24,6 +24,17 @@ def parseWeightString (s : String) : Option (Array Float) := do
   let parts := (str.splitOn ",").filter (· ≠ "")
   (parts.mapM decimalFloat).map List.toArray
 
+/-- the normal CDF by Abramowitz–Stegun 7.1.26 (absolute error < 1.5e-7): an independent yardstick for the code's
+`0.5·erfc(−z)` -/
+def cdfApprox (x mu sg : Float) : Float :=
+  let z := (x - mu) / (sg * Float.sqrt 2.0)
+  let a := z.abs
+  let t := 1.0 / (1.0 + 0.3275911 * a)
+  let poly := t * (0.254829592 + t * (-0.284496736 + t * (1.421413741 + t * (-1.453152027 + t * 1.061405429))))
+  let erfA := 1.0 - poly * Float.exp (-(a * a))
+  let erf := if z < 0.0 then -erfA else erfA
+  0.5 * (1.0 + erf)
+
 /-- `gauss <volume> <repeatNs> <freqNs> <peakNs> <stddevNs> <weights> <startUnixNs> <n>` (floats as bits);
 impl: `<cdfHi> <cdf0> <outs> <pdfs>` | `err` -/
 def gauss (args impl : List String) : Option (String × String) := do
@@ -59,12 +70,28 @@ def gauss (args impl : List String) : Option (String × String) := do
           c := r.1
           mo := mo.push r.2
         return (mo.toList, rs)
+      -- the density values themselves: e^(−(x−μ)²/(2σ²)) / (σ·√(2π)) at the tick's offset in its window (relative 1e-9:
+      -- Go's and libm's exp may differ in the last bits)
+      let pdfBad : Option Nat := (List.range n).find? fun k =>
+        let t := start + unixToAbs + (k : Int) * freq
+        let x := Float.ofInt (t % rep)
+        let mu := Float.ofInt peak; let sg := Float.ofInt sd
+        let want := Float.exp (-((x - mu) * (x - mu)) / (2.0 * sg * sg)) / (sg * Float.sqrt (2.0 * 3.141592653589793))
+        let got := pdfs.getD k 0.0
+        (got - want).abs > 1e-9 * want.abs + 1e-300
       let model := s!"{floatHex chi} {floatHex c0} {intsTok mouts} *"
       -- Spec on the implementation's outputs
       let nonnegIn := ws.all (· ≥ 0.0) && vol ≥ 0.0 && (chi - c0) > 0.0
       let perWin : Nat := if freq > 0 then (rep / freq).toNat else 0
       let spec : String := Id.run do
         if nonnegIn ∧ outs.any (· < 0) then return "FAIL negative-request"
+        match pdfBad with
+        | some k => return s!"FAIL density-value-at-tick-{k}-is-not-the-gaussian-density"
+        | none => pure ()
+        -- the two CDF values the multiplier is normalised with
+        let muF := Float.ofInt peak; let sgF := Float.ofInt sd
+        if (c0 - cdfApprox 0.0 muF sgF).abs > 1e-6 ∨ (chi - cdfApprox (Float.ofInt (rep - freq)) muF sgF).abs > 1e-6 then
+          return "FAIL cumulative-distribution-values-are-not-the-normal-CDF"
         if perWin = 0 ∨ !nonnegIn then return "ok"
         let aligned := (start + unixToAbs) % rep = 0
         if !aligned then return "ok"
@@ -77,6 +104,19 @@ def gauss (args impl : List String) : Option (String × String) := do
           let sumRate : Float := ((List.range perWin).map fun j => rates.getD (lo + j) 0.0).foldl (· + ·) 0.0
           if (Float.ofInt sumOut - sumRate).abs > 1.0 + 1e-6 * sumRate.abs + 1.0 then
             return s!"FAIL window-{w}-total-{sumOut}-differs-from-the-configured-volume-share"
+          -- the configured volume itself (scaled by this window's weight over the mean), when the bell lies inside the
+          -- window (peak ± 4σ) and is resolved by the ticks (σ ≥ tick): then the discretisation error is far below 1 %
+          let inside := decide (peak - 4 * sd ≥ 0) && decide (peak + 4 * sd ≤ rep) && decide (sd ≥ freq)
+          if inside then
+            let t := start + unixToAbs + ((lo : Nat) : Int) * freq
+            let share : Float := if ws.size > 0 then
+                match weightIndex t rep ws.size with
+                | some i => ws.getD i 0.0 * Float.ofNat ws.size / (ws.foldl (· + ·) 0.0)
+                | none => 1.0
+              else 1.0
+            let wantVol := vol * share
+            if (Float.ofInt sumOut - wantVol).abs > 2.0 + 0.01 * wantVol.abs then
+              return s!"FAIL window-{w}-requests-{sumOut}-not-the-configured-volume"
           -- peak: no tick more than one above the tick nearest the configured peak
           let peakIdx : Nat := ((List.range perWin).foldl (fun (best : Nat × Nat) (j : Nat) =>
             let d : Nat := ((j : Int) * freq - peak).natAbs
